@@ -34,6 +34,18 @@ def sized_prose(r, target):
     return s + r.choice(["", ".", ","])
 
 
+def exact_prose(r, n):
+    """prose of exactly n characters (n >= 3), made of dictionary words plus one filler word"""
+    ws = []
+    while len(" ".join(ws)) + 8 < n:
+        ws.append(r.choice(G.WORDS))
+    s = " ".join(ws)
+    rest = n - len(s) - (1 if s else 0)
+    if rest > 0:
+        s = (s + " " if s else "") + "q" * rest
+    return s[:n]
+
+
 class C18(AstKindProp):
     id = "C18"
     quick_cases = 420
@@ -55,6 +67,9 @@ class C18(AstKindProp):
             w = widths[i % len(widths)]
             weff = w or 100
             kind = r.choice(KINDS)
+            sweep = r.random() < 0.35
+            if sweep:
+                kind = r.choice(["class", "rest", "function", "google", "argparse"])
             sizes = [r.choice([weff // 3, weff - 12, weff - 2, weff + 3, int(weff * 1.6), weff * 3]) for _ in range(6)]
             params = []
             for j, nm in enumerate(r.sample(G.NAMES, r.randint(1, 3))):
@@ -62,16 +77,25 @@ class C18(AstKindProp):
                 if r.random() < 0.25:
                     k = max(2, sizes[j] // 10)
                     typ = "Literal[%s]" % ", ".join(repr(x) for x in r.sample(G.WORDS, min(k, len(G.WORDS))))
+                if r.random() < 0.1:
+                    typ = "Literal[%s]" % ", ".join(repr(x) for x in r.sample(["read only", "read write", "two words", "a b", "append only", "no access"], 4))
                 p = {"typ": typ, "doc": sized_prose(r, sizes[j])}
                 d = G.gen_default(r, typ, allow_code=False)
                 if d[0] == "val" and d[1] != "":
                     p["default"] = d[1]
+                if sweep:
+                    # the line is "<indent>:param|:cvar <name>: <prose>. Defaults to <v>": slide its break point
+                    # across the default sentence
+                    p["doc"] = exact_prose(r, max(3, weff - len(nm) - 12 - (i // len(widths)) % 24 + 4))
+                    if "default" not in p and not typ.startswith("Literal"):
+                        p["default"] = {"int": 5, "str": "mnist", "float": 0.5, "bool": True, "Optional[int]": 7, "Optional[str]": "x"}.get(typ, 3)
+                    opts_edd = True
                 params.append((nm, p))
             ret = None
             if r.random() < 0.3 and kind not in ("argparse", "google"):
                 ret = {"typ": r.choice(G.SCALARS), "doc": sized_prose(r, sizes[4])}
             irj = {"doc": sized_prose(r, sizes[5]), "params": params, "returns": ret}
-            opts = {"emit_default_doc": r.random() < 0.7}
+            opts = {"emit_default_doc": True if sweep else r.random() < 0.7}
             if kind == "function":
                 opts.update({"inline_types": r.random() < 0.5, "indent_level": r.choice([0, 1, 2])})
             self.cases.append({"width": w, "kind": kind, "ir": irutil.ir_to_json(irj), "opts": opts})
@@ -171,9 +195,10 @@ class C18(AstKindProp):
         wt, ut = res.get("wrapped_text"), res.get("unwrapped_text")
         if wt is None or ut is None:
             return None
-        if c["kind"] == "numpydoc" and wt != ut:
+        differs = fl.get("what", "wrapped and unwrapped artefacts parse to different interfaces") == "wrapped and unwrapped artefacts parse to different interfaces"
+        if c["kind"] == "numpydoc" and wt != ut and differs:
             return "C18-D20-numpydoc-continuation-lines-lose-their-indent"
-        if c["kind"] in ("rest", "function"):
+        if c["kind"] in ("rest", "function") and differs and all(": typ " in d for d in fl.get("diffs", [])):
             for line in wt.split("\n"):
                 ls = line.strip()
                 if (ls.startswith(":type ") or ls.startswith(":rtype:")) and not ls.endswith("```"):
